@@ -389,8 +389,9 @@ def gen_mutations(c, order, t, r, s, rng, tier):
         pub("s=" + nm, h, rb, E(v), tgt=None if strong else ext)
         priv("r=" + nm, h, E(v), sb, tgt=ext)
         priv("s=" + nm, h, rb, E(v), tgt=ext)
-    pub("r+n", h, E(r + n), sb, tgt=ext)
-    pub("s+n", h, rb, E(s + n), tgt=ext)
+    pub("r+n", h, E(r + n), sb)      # encodable only where 2n < 2^(8*bytes): cofactor curves, 255-bit n
+    pub("s+n", h, rb, E(s + n))
+    priv("r+n", h, E(r + n), sb, tgt=ext)
     pub("s=n-s", h, rb, E(n - s))
     priv("s=n-s", h, rb, E(n - s))
     pub("r=n-r", h, E(n - r), sb, tgt=ext)
@@ -837,47 +838,50 @@ def honesty_faults(part, c, ci, oname, order, le, vname, vm, exe, rng, tier):
             ("bn-verify-s-out-of-range", "ecdsa_verify", lambda a: case_verify_bn(ci, e, 0, c.n, Q[0], Q[1], arm=a), "s-range", 4),
             ("bn-verify-priv-r0s1", "ecdsa_verify_priv_key", lambda a: case_verify_bn(ci, e, 0, 1, d, 0, which=1, arm=a), "r-zero", 14 if quick else 300),
         ]
-    for name, ent, mk, tcls, want in plans:
-        clean = run_judged(exe, vm, [mk(0)], part, lambda i: ent)[0]
+    cleans = run_judged(exe, vm, [pl[2](0) for pl in plans], part, lambda i: plans[i][1])
+    cases = []
+    cinfo = []
+    for (name, ent, mk, tcls, want), clean in zip(plans, cleans):
         if isinstance(clean, common.Crash):
             continue
         N = Obs(clean).calls
         everything = (not quick) and small
-        pos = _positions(N, want, rng, everything)
         common.part_count(part, "fault_positions_total", N)
-        cases = [mk(p) for p in pos]
-        obs = run_judged(exe, vm, cases, part, lambda i: ent)
-        for p, o, cs in zip(pos, obs, cases):
-            part["evaluations"] += 1
-            if isinstance(o, common.Crash):
-                _viol(part, "%s:%s:no-verdict-under-fault" % (o.kind, ent), vname, vm, cs, "error return", repr(o),
-                      "failpoint %d/%d in %s" % (p, N, name), {"report": o.report[-3000:]})
+        for p in _positions(N, want, rng, everything):
+            cases.append(mk(p))
+            cinfo.append((name, ent, tcls, p, N))
+    obs = run_judged(exe, vm, cases, part, lambda i: cinfo[i][1])
+    for (name, ent, tcls, p, N), o, cs in zip(cinfo, obs, cases):
+        part["evaluations"] += 1
+        if isinstance(o, common.Crash):
+            _viol(part, "%s:%s:no-verdict-under-fault" % (o.kind, ent), vname, vm, cs, "error return", repr(o),
+                  "failpoint %d/%d in %s" % (p, N, name), {"report": o.report[-3000:]})
+            continue
+        ob = Obs(o)
+        if not ob.fired:
+            common.part_count(part, "fault_positions_not_reached")
+            continue
+        common.part_count(part, "fault_positions_hit")
+        part["classes"].add(("fault", ent, tcls, ob.func, ob.rc == 0))
+        if ob.rc != 0:
+            continue
+        if tcls == "sign":
+            ob.r.u32()
+            lib = (int.from_bytes(ob.r.blob(), order), int.from_bytes(ob.r.blob(), order))
+            if lib == ref_sig:
+                k2 = "fault-note:%s:success-with-correct-signature-after-failure" % ent
+                part["observations"][k2] = part["observations"].get(k2, 0) + 1
                 continue
-            ob = Obs(o)
-            if not ob.fired:
-                common.part_count(part, "fault_positions_not_reached")
-                continue
-            common.part_count(part, "fault_positions_hit")
-            part["classes"].add(("fault", ent, tcls, ob.func, ob.rc == 0))
-            if ob.rc != 0:
-                continue
-            if tcls == "sign":
-                ob.r.u32()
-                lib = (int.from_bytes(ob.r.blob(), order), int.from_bytes(ob.r.blob(), order))
-                if lib == ref_sig:
-                    k2 = "fault-note:%s:success-with-correct-signature-after-failure" % ent
-                    part["observations"][k2] = part["observations"].get(k2, 0) + 1
-                    continue
-                _viol(part, "fault:%s:wrong-signature-after-internal-failure" % ent, vname, vm, cs,
-                      {"rc": "non-zero, or 0 with the reference signature", "r": hex(ref_sig[0]), "s": hex(ref_sig[1])},
-                      {"rc": 0, "r": hex(lib[0]), "s": hex(lib[1])},
-                      "curve %s: status %d/%d forced to EOVERFLOW in %s(); signer returned 0 with a wrong signature" % (
-                          c.name, p, N, ob.func), {"fault_k": p, "fault_func": ob.func})
-            else:
-                _viol(part, "fault:%s:success-after-internal-failure:%s" % (ent, tcls), vname, vm, cs,
-                      {"rc": "non-zero"}, {"rc": 0},
-                      "curve %s plan %s: status %d/%d forced to EOVERFLOW in %s(); verifier still returned 0" % (
-                          c.name, name, p, N, ob.func), {"fault_k": p, "fault_func": ob.func})
+            _viol(part, "fault:%s:wrong-signature-after-internal-failure" % ent, vname, vm, cs,
+                  {"rc": "non-zero, or 0 with the reference signature", "r": hex(ref_sig[0]), "s": hex(ref_sig[1])},
+                  {"rc": 0, "r": hex(lib[0]), "s": hex(lib[1])},
+                  "curve %s: status %d/%d forced to EOVERFLOW in %s(); signer returned 0 with a wrong signature" % (
+                      c.name, p, N, ob.func), {"fault_k": p, "fault_func": ob.func})
+        else:
+            _viol(part, "fault:%s:success-after-internal-failure:%s" % (ent, tcls), vname, vm, cs,
+                  {"rc": "non-zero"}, {"rc": 0},
+                  "curve %s plan %s: status %d/%d forced to EOVERFLOW in %s(); verifier still returned 0" % (
+                      c.name, name, p, N, ob.func), {"fault_k": p, "fault_func": ob.func})
 
 
 # ---------------------------------------------------------------------------
@@ -908,7 +912,10 @@ def run(tier):
     names = sorted(exes)
     groups = [[v] for v in names]
     jobs = []
+    only = curve_filter(report)
     for ci in range(len(curves)):
+        if only and curves[ci].name not in only:
+            continue
         # failpoint enumeration: one variant per (curve, order), rotating over the variants
         # (N is 10^4..2*10^5 checked statuses per call, so positions are stride-sampled)
         fv = {"be": names[ci % len(names)], "le": names[(ci + 2) % len(names)]}
@@ -922,6 +929,9 @@ def run(tier):
         report.merge(part)
     for k in ("fault_positions_total", "fault_positions_hit"):
         report.extra.setdefault(k, 0)
+    import resource
+    ru = resource.getrusage(resource.RUSAGE_CHILDREN)
+    report.extra["cpu_s_children"] = round(ru.ru_utime + ru.ru_stime, 1)
     report.extra["fault_enumeration"] = (
         "per (curve, byte order): one build variant; positions stride-sampled over the N checked statuses of one call "
         "(quick ~14-20 per plan, thorough 100-300 per plan and ALL positions for curves <= 128 bit)")
@@ -930,6 +940,18 @@ def run(tier):
     if report.extra.get("sign_equal_reference", 0) == 0:
         report.inconclusive.append("no library signature equalled the reference: sign monitor saw nothing")
     return report.finish()
+
+
+def curve_filter(report):
+    """Development aid (never set by the registered commands): VERIF_CURVES=name,name restricts the
+    workload; such a run is reported inconclusive when it finds nothing."""
+    v = os.environ.get("VERIF_CURVES", "").strip()
+    if not v:
+        return None
+    only = set(x for x in v.split(",") if x)
+    report.extra["curve_filter"] = sorted(only)
+    report.inconclusive.append("VERIF_CURVES restricts the workload to %d curves" % len(only))
+    return only
 
 
 def replay(path):
